@@ -119,9 +119,7 @@ class DecFileParser:
                         beg = line.lstrip("\ufeff").lstrip()
                         # Make sure one discards all lines "End"
                         # in intermediate files, to avoid a parsing error
-                        if not (
-                            beg.startswith("End") and not beg.startswith("Enddecay")
-                        ):
+                        if beg.split("#", 1)[0].strip() != "End":
                             stream.write(line)
                     stream.write("\n")
 
